@@ -252,7 +252,8 @@ class kMinPathError(pathmodel.AbstractPathModelDAG):
                 flow_attr=self.flow_attr, edges_to_ignore=self.edges_to_ignore
             )
         )
-        self.w_max = max(self.w_max, max(self.solution_weights_superset or [0]))
+        # (with given weights several of them can pile up on one edge: errors and slacks can reach their sum)
+        self.w_max = max(self.w_max, sum(self.solution_weights_superset or [0]))
 
         self.path_length_ranges = path_length_ranges
         self.path_length_factors = path_length_factors
